@@ -86,9 +86,9 @@ def main():
             meta["demo_patched_tail"] = (r1.stdout + r1.stderr).strip().splitlines()[-6:]
             t0 = time.time()
             files = ["tests"] if full else FAST
-            tr = sh(["/venv/bin/python", "-m", "pytest", "-q", "-p", "no:cacheprovider", "--timeout=900"] + files, env=env, cwd=wt)
+            tr = sh(["/venv/bin/python", "-m", "pytest", "-q", "-rf", "-p", "no:cacheprovider", "--timeout=1800"] + files, env=env, cwd=wt)
             meta["tests"] = {"which": "full suite" if full else "all test files except tests/test_slow.py", "passed": tr.returncode == 0,
-                             "tail": tr.stdout.strip().splitlines()[-1:] if tr.stdout else [], "wall_s": round(time.time() - t0)}
+                             "tail": tr.stdout.strip().splitlines()[-1:] if tr.stdout else [], "failed": [l for l in tr.stdout.splitlines() if l.startswith("FAILED")][:5], "wall_s": round(time.time() - t0)}
             if not nocheck:
                 t0 = time.time()
                 cr = sh([os.path.join(VERIF, "check"), prop, "--tier", "quick", "--no-evidence"], cwd=VERIF, env=dict(os.environ, VERIF_REPO=wt))
